@@ -418,13 +418,14 @@ def canon_ty(t) -> Any:
 
 
 # ------------------------------------------------------------------ IR of the real parser
-def _parser(doc: dict, style: str, routing: str):
+def _parser(doc: dict, style: str, routing: str, extra: dict | None = None):
     from datamodel_code_generator.model import pydantic as p1
     from datamodel_code_generator.model import pydantic_v2 as p2
     from datamodel_code_generator.parser.jsonschema import JsonSchemaParser
 
     mod = p1 if style == "v1" else p2
     opts = {"contype": {}, "field": {"field_constraints": True}, "annotated": {"field_constraints": True, "use_annotated": True}}[routing]
+    opts = {**opts, **(extra or {})}
     with warnings.catch_warnings():
         warnings.simplefilter("ignore")
         p = JsonSchemaParser(
@@ -472,8 +473,8 @@ def _cons_from(d: dict) -> tuple:
 
 
 class RealIR:
-    def __init__(self, doc: dict, style: str, routing: str) -> None:
-        self.p = _parser(doc, style, routing)
+    def __init__(self, doc: dict, style: str, routing: str, extra: dict | None = None) -> None:
+        self.p = _parser(doc, style, routing, extra)
         # the discriminator pass of Parser.parse() (it rewrites the tag member of the alternatives' classes)
         from datamodel_code_generator.imports import Imports
 
